@@ -76,7 +76,8 @@ OPTS = {"google": ["ignore_init_summary", "trim_doctest_flags", "returns_multipl
         "numpy": ["ignore_init_summary", "trim_doctest_flags", "warn_unknown_params"],
         "sphinx": ["warn_unknown_params"]}
 STYLES = ["google", "numpy", "sphinx"]
-PARENTS = ["none", "module", "init", "function", "property", "function-none"]
+PARENTS = ["none", "module", "init", "function", "property", "function-none", "module-alias",
+           "function-tuple", "generator", "iterator", "property-tuple"]
 ALL_SECTION_KINDS = set(KINDS) | {"text", "admonition"}
 
 
@@ -112,12 +113,27 @@ def features(line: str) -> list[int]:
 
 
 # ---------------------------------------------------------------- implementation side
+MAX_HANGS = 3
+
+
 class Watchdog(BaseException):
     pass
 
 
 def _alarm(signum, frame):
     raise Watchdog()
+
+
+EXPR_CODE = """
+from typing import Generator, Iterator
+def t(x: int = 1, *args: str, **kwargs: float) -> tuple[int, str]: ...
+def g(x) -> Generator[tuple[int, str], tuple[float, bytes], tuple[int, str]]: ...
+def i(x) -> Iterator[tuple[int, str]]: ...
+class C:
+    @property
+    def p(self) -> tuple[int, str]: ...
+"""
+EXPR_PARENTS = {"function-tuple": "t", "generator": "g", "iterator": "i", "property-tuple": "C.p"}
 
 
 def make_parent(kind: str):
@@ -143,6 +159,18 @@ def make_parent(kind: str):
         return a
     if kind == "function-none":
         return Function("g", returns=None)
+    if kind in EXPR_PARENTS:
+        # objects whose annotations are real expressions (built by visiting source), so that the parsers' look-ups into
+        # tuple / Generator / Iterator return annotations are exercised
+        m = griffe.visit("m", filepath=None, code=EXPR_CODE)
+        return m[EXPR_PARENTS[kind]]
+    if kind == "module-alias":
+        # a visited module inside a collection: `np` is an alias nobody can resolve, `cyc`/`cyc2` form a cycle, `x` is a plain attribute
+        mc = griffe.ModulesCollection()
+        m = griffe.visit("m", filepath=None, code="import numpy as np\nfrom m import cyc2 as cyc\nfrom m import cyc as cyc2\nx: int = 1\n",
+                         modules_collection=mc)
+        mc["m"] = m
+        return m
     raise ValueError(kind)
 
 
@@ -150,6 +178,8 @@ def snapshot(obj, depth=0):
     """Observable state of a parent object (and what hangs below / above it)."""
     if obj is None:
         return None
+    if obj.is_alias:
+        return {"alias": obj.name, "target_path": obj.target_path, "resolved": obj.resolved}
     out = {"cls": type(obj).__name__, "name": obj.name, "labels": sorted(obj.labels), "members": {},
            "doc": None if obj.docstring is None else obj.docstring.value}
     for attr in ("annotation", "returns", "value"):
@@ -238,7 +268,7 @@ def run_impl(style: str, text: str, opts: dict, parent_kind: str):
     doc = Docstring(text, parent=parent, lineno=3, endlineno=3 + text.count("\n"))
     before = (doc.value, doc.lineno, doc.endlineno, doc.parser, dict(doc.parser_options))
     lines = doc.value.split("\n")
-    res = {"lines": lines, "problems": [], "canon": None, "status": "ok", "error": None, "sections": None}
+    res = {"lines": lines, "problems": [], "canon": None, "status": "ok", "error": None, "where": None, "sections": None}
     old = signal.signal(signal.SIGALRM, _alarm)
     signal.setitimer(signal.ITIMER_REAL, 2.0)
     try:
@@ -254,7 +284,8 @@ def run_impl(style: str, text: str, opts: dict, parent_kind: str):
     except Exception as e:  # noqa: BLE001
         import traceback
         tb = traceback.extract_tb(e.__traceback__)[-1]
-        res["status"], res["error"] = "err", type(e).__name__
+        res["status"], res["error"], res["where"] = "err", type(e).__name__, tb.name
+        res["frames"] = [f.name for f in traceback.extract_tb(e.__traceback__)]
         res["problems"].append(f"raises {type(e).__name__}: {e} at {tb.name}:{tb.lineno}")
         signal.signal(signal.SIGALRM, old)
         return res
@@ -282,7 +313,7 @@ def is_plain(style: str, lines: list[str], opts: dict, parent_kind: str) -> bool
     if style == "google":
         if any(G_RE_ADMONITION.match(l) for l in lines):
             return False
-        if opts.get("returns_type_in_property_summary") and parent_kind == "property":
+        if opts.get("returns_type_in_property_summary") and parent_kind in ("property", "property-tuple"):
             first = next((l for l in lines if l.strip()), "")
             return ":" not in first
         return True
@@ -306,7 +337,7 @@ def plain_expectation(style, lines, opts, parent_kind):
 # ---------------------------------------------------------------- model side
 def model_input(style, opts, parent_kind, lines):
     o = [int(bool(opts.get(k, d))) for k, d in zip(OPTS["google"], (0, 1, 1, 1, 0, 1, 1, 1))]
-    return [style, o, [int(parent_kind == "init"), int(parent_kind == "property")], [features(l) for l in lines]]
+    return [style, o, [int(parent_kind == "init"), int(parent_kind in ("property", "property-tuple"))], [features(l) for l in lines]]
 
 
 def expected_from_model(style, lines, secs):
@@ -360,10 +391,34 @@ def F1_gap(style, lines) -> bool:
     return style == "numpy" and all(not l.strip() for l in lines)
 
 
+def crash_finding(style, r, parent_kind, model_out) -> str | None:
+    """Classify an exception of the implementation against the known crash findings (item-level code the model does
+    not cover). C12-F7: numpy Returns/Receives index the parent's 2-element tuple annotation with the item index.
+    Input predicate: numpy style, a parent whose return annotation is a tuple / Generator / Iterator expression, and
+    (by the model's reading of the text) a returns or receives section with at least three items; plus the raising site."""
+    if r["status"] != "err" or style != "numpy" or r["error"] != "IndexError":
+        return None
+    if r["where"] not in ("_read_returns_section", "_read_receives_section") or parent_kind not in EXPR_PARENTS:
+        return None
+    if model_out and model_out[0] == "ok" and any(s[0] in ("returns", "receives") and s[2] >= 3 for s in model_out[2]):
+        return "C12-F7"
+    return None
+
+
 # ---------------------------------------------------------------- evaluation of a batch of cases
 def evaluate(ctx, cases, stream):
     """cases: list of (style, text, opts, parent_kind)."""
-    impl = [run_impl(*c) for c in cases]
+    if ctx.stats["hangs"] >= MAX_HANGS:
+        return          # the non-termination is already reported; every further case would cost the watchdog delay
+    impl = []
+    for c in cases:
+        r = run_impl(*c)
+        impl.append(r)
+        if r["status"] == "hang":
+            ctx.count("hangs")
+            if ctx.stats["hangs"] >= MAX_HANGS:
+                cases = cases[:len(impl)]
+                break
     outs = ctx.model([model_input(c[0], c[2], c[3], r["lines"]) for c, r in zip(cases, impl)])
     for (style, text, opts, pk), r, mo in zip(cases, impl, outs):
         lines = r["lines"]
@@ -384,12 +439,17 @@ def evaluate(ctx, cases, stream):
         if not ok_model:
             ctx.tie_failure("correspondence", f"{style}: model rejected its input", {"model": mo}, case)
             continue
-        if bool(mo[1]) != post_py:
-            ctx.tie_failure("oracle", "cleandoc_post(model) vs harness evaluation on Docstring.lines", {"model": mo[1], "python": post_py}, case)
+        post_m, wf_m, f1_m = (bool(x) for x in mo[1])
+        if post_m != post_py:
+            ctx.tie_failure("oracle", "cleandoc_post(model) vs harness evaluation on Docstring.lines", {"model": post_m, "python": post_py}, case)
+        if not wf_m:
+            ctx.tie_failure("oracle", "lines_wf(model): the feature extractor produced a null line that is not blank", {"lines": lines[:6]}, case)
+        if f1_m != F1_gap("numpy", lines):
+            ctx.tie_failure("correspondence", "KnownGap_F1(model) vs its Python mirror", {"model": f1_m}, case)
         # (C) model vs implementation
         if mo[0] == "err":
             ctx.observe("model_result", f"{style}:err:{mo[2]}")
-            if not (r["status"] == "err" and r["error"] == mo[2]):
+            if not (r["status"] == "err" and r["error"] == mo[2] and r["where"] not in ("_read_returns_section", "_read_receives_section")):
                 ctx.tie_failure("correspondence", f"{style}: model raises {mo[2]}", {"impl": r["status"], "error": r["error"]}, case)
         else:
             for s in mo[2]:
@@ -404,12 +464,14 @@ def evaluate(ctx, cases, stream):
                 if not sections_agree(style, exp, r["canon"]):
                     ctx.tie_failure("correspondence", f"{style}: sections(model) vs Docstring.parse",
                                     {"model": exp, "impl": r["canon"]}, case)
+            elif crash_finding(style, r, pk, mo):
+                ctx.count("correspondence_skipped_known_crash")      # item-level annotation look-up is outside the model
             elif r["status"] != "ok":
                 ctx.tie_failure("correspondence", f"{style}: model returns sections, implementation {r['status']} {r['error']}",
                                 {"model": mo[2]}, case)
         # direct evaluation of the property on the implementation
         for p in r["problems"]:
-            ctx.property_failure(case, {"problem": p, "lines": lines[:14]})
+            ctx.property_failure(case, {"problem": p, "lines": [l[:200] for l in lines[:14]]}, finding=crash_finding(style, r, pk, mo))
         if r["status"] == "ok" and r["canon"] is not None and is_plain(style, lines, opts, pk):
             ctx.count("plain_cases")
             want = plain_expectation(style, lines, opts, pk)
@@ -433,7 +495,7 @@ FRAGS = ["Args:", "Parameters", "----------", "---", "Returns:", "Returns", "Yie
          "    >>> print(1)  # doctest: +SKIP", "    <BLANKLINE>", "    ```", "int: the summary", "Summary line.", "More prose here.",
          ":param x", "    continued: here", ":keyword k: v", ":ivar v: d", ":except E: why", ":raise:", ":returns", "  :param q: w",
          ":arg int a: first", ":type: int", ":vartype: y", ":cvar c:", ":rtype:", "x", "x:", "  x", "x y: z", "Returns: title here",
-         "Parameters:", "    **kwargs: extra", "    *args (int): extra", "Deprecated:", "deprecated", "1.2.3", "    since then"]
+         "Parameters:", "    np: alias", ":var np: d", "np", ":var : d", "    : d", " :", "    **kwargs: extra", "    *args (int): extra", "Deprecated:", "deprecated", "1.2.3", "    since then"]
 
 # alphabets for the exhaustive-small enumeration: one representative per line class
 ALPHABET = {
@@ -448,12 +510,13 @@ G_HEADERS = ["Args", "Arguments", "Params", "Parameters", "Keyword Args", "Other
 N_HEADERS = ["Deprecated", "Parameters", "Other Parameters", "Returns", "Yields", "Receives", "Raises", "Warns", "Examples", "Attributes",
              "Functions", "Methods", "Classes", "Modules", "Notes", "Warnings", "See Also", "References"]
 G_ITEMS = ["x: desc", "x (int): desc", "y (str, optional): desc", "(int): desc", "int: desc", "name: desc", "no colon here", "f(a, b): desc",
-           "ValueError: when", ": empty name", "*args: more", "z:", ">>> 1 + 1", "2", "```python", "```", "plain words"]
+           "ValueError: when", ": empty name", "np: the alias", "cyc: cyclic", "x: known attribute", "*args: more", "z:", ">>> 1 + 1", "2", "```python", "```", "plain words"]
 N_ITEMS = ["x : int", "x", "x, y : int, optional", "int", "name : {a, b}, default a", "*args", "ValueError", "f(a)", "1.0", "  leading",
-           ">>> 1 + 1", "2", "```", "a: b", ": int", "?bad"]
+           ">>> 1 + 1", "2", "```", "a: b", ": int", "?bad", ":", " :", " : ", "np", "cyc : ", "x", "a :", "b :", "c : ", "r : int"]
 S_ITEMS = [":param x: d", ":param int x: d", ":parameter y:", ":type x: int or str", ":arg a: b", ":key k: v", ":var v: d", ":ivar i: d",
            ":cvar c: d", ":vartype v: int", ":raises E: e", ":raise E:", ":except E: e", ":exception E: e", ":returns: r", ":return: r",
-           ":rtype: int", ":param x", ":param: d", ":param a b c: d", ":paramx: d", ":x: y", ":raises: e", ":raises A B: e"]
+           ":rtype: int", ":param x", ":param: d", ":param a b c: d", ":paramx: d", ":x: y", ":raises: e", ":raises A B: e",
+           ":var : d", ":ivar :", ":vartype : int", ":var np: d", ":cvar cyc: d", ":var x: d", ":param : d", ":type : int", ":raises : e"]
 
 
 def gen_structured(rng, style):
@@ -520,7 +583,8 @@ def gen_frags(rng):
     return "\n".join(rng.choice(FRAGS) for _ in range(rng.randint(0, 12)))
 
 
-WEIRD = ["\t", "\r", "\x0c", "\x00", "\x0b", "\x1c", "\x85", "\xa0", "\u2028", "\u3000", "\u00e9", "\u4e2d", "\u0130", "\u200b", "\ufeff", "\U0001f600"]
+WEIRD = ["\t", "\r", "\x0c", "\x00", "\x0b", "\x1c", "\x85", "\xa0", "\u2028", "\u3000", "\u00e9", "\u4e2d", "\u0130", "\u200b", "\ufeff", "\U0001f600",
+         "\ud800", "\udfff", "\\", "'", '"', "#", "(", ")", "[", "{", "*", "`", "$"]
 
 
 def gen_malformed(rng, style):
@@ -542,7 +606,7 @@ def gen_malformed(rng, style):
     if r2 < 0.3:
         lines[i] = " " * rng.choice([60, 500, 3000]) + lines[i].lstrip()
     elif r2 < 0.5:
-        lines[i] = lines[i] + rng.choice(["x", ":", " ", "x y ", "-"]) * rng.choice([2000, 20000])
+        lines[i] = lines[i] + rng.choice(["x", ":", " ", "x y ", "-", "not ", ".a", "(", "a, "]) * rng.choice([1500, 6000])
     elif r2 < 0.65:
         lines.insert(i, " " * 700 + "deep: item")
         lines.insert(i + 1, " " * 1400 + "deeper")
@@ -587,12 +651,22 @@ def batches(it, n):
         yield buf
 
 
+def witness_text(w) -> str:
+    if "text_expr" in w:      # long or non-ASCII witnesses are stored as an expression over string literals
+        return eval(compile(w["text_expr"], "<witness>", "eval", dont_inherit=True), {"__builtins__": {}, "chr": chr})
+    return w.get("text", "")
+
+
 def known_witness(ctx):
     """Replay the listed findings' witnesses on the implementation."""
     for fid, f in ctx.known.items():
         w = f.get("witness", {})
-        r = run_impl(w.get("style", "numpy"), w.get("text", ""), w.get("options", {}), w.get("parent", "none"))
-        ctx.witness(fid, r["status"] == "ok" and r["canon"] == [])
+        style = w.get("style", "numpy")
+        r = run_impl(style, witness_text(w), w.get("options", {}), w.get("parent", "none"))
+        if fid == "C12-F1":
+            ctx.witness(fid, r["status"] == "ok" and r["canon"] == [])
+        elif fid == "C12-F7":
+            ctx.witness(fid, r["status"] == "err" and r["error"] == "IndexError" and r["where"] == "_read_returns_section")
 
 
 def corpus_cases():
@@ -600,7 +674,7 @@ def corpus_cases():
     d = Path(__file__).resolve().parents[2] / "corpus" / "C12"
     for f in sorted(d.glob("*.json")):
         for c in json.loads(f.read_text()):
-            yield (c["style"], c["text"], c.get("options", {}), c.get("parent", "none"))
+            yield (c["style"], witness_text(c), c.get("options", {}), c.get("parent", "none"))
 
 
 def explore(ctx):
@@ -660,9 +734,11 @@ def search(ctx):
         style, text, opts, pk = case
         r = run_impl(*case)
         ctx.evaluations += 1
+        if r["status"] == "hang":
+            ctx.count("hangs")
         cj = {"style": style, "text": text, "options": opts, "parent": pk}
         for p in r["problems"]:
-            ctx.property_failure(cj, {"problem": p, "lines": r["lines"][:14]})
+            ctx.property_failure(cj, {"problem": p, "lines": [l[:200] for l in r["lines"][:14]]})
             return True
         if r["canon"] is not None and is_plain(style, r["lines"], opts, pk):
             want = plain_expectation(style, r["lines"], opts, pk)
